@@ -709,6 +709,19 @@ fn cmd_hist(a: &Args) {
         ("$ a + b $ text /* c */ #x.y.z(1)\n", "$ a + b $ text /* d */ #x.y.z(2)\n"),
         ("#import \"a.typ\": b, a\n- x\n  - y\n", "#import \"a.typ\": a, b\n- x\n  - z\n"),
     ];
+    // documents whose layout involves an ORDER among several items with equal or nearly equal keys (an order taken from a
+    // hash table differs from call to call and from process to process); formatted under every configuration, reordering on
+    for (i, t) in [
+        "#import \"a.typ\": Table, table, Figure, figure, caption, B, b, A, a\n",
+        "#import \"a.typ\": zeta, Alpha, alpha, m.b as Beta, beta, m.a, Gamma as g, gamma\n",
+        "#import \"a.typ\": (\n  d, D, c, C,\n  b, B, a, A,\n)\n#import \"b.typ\": x.y, X.y as Y, y as yy, YY\n",
+        "#let f(c: 3, C: 4, b: 2, B: 5, a: 1, A: 6) = (c: c, C: C, b: b, B: B, a: a, A: A)\n#f(B: 1, b: 2, A: 3, a: 4)\n",
+    ]
+    .iter()
+    .enumerate()
+    {
+        docs.push((format!("order:{i}"), t.to_string()));
+    }
     let base = docs.len();
     for (i, (x, y)) in pairs.iter().enumerate() {
         docs.push((format!("pair:{i}:a"), x.to_string()));
@@ -828,6 +841,9 @@ fn main() {
                 "#let x = (".to_string(), "text $ a".to_string(), format!("#let\n{long}"), format!("#{{\n{long}"), long.clone(),
                 format!("= T\n\n{long}"), String::new(), "no newline".to_string(), "#let   x=1".to_string(), "\n\n\n".to_string(),
                 "#import \"a.typ\": zeta, alpha, m.b as c\n".to_string(), "a\r\nb\r\n".to_string(),
+                // bytes a front-end might be tempted to normalise when it reads a FILE: byte order mark, NUL, final blanks
+                "\u{feff}#let a  =  0\n".to_string(), "\u{feff}#let b = (\n".to_string(), "\u{feff}".to_string(),
+                "a\u{0}b  \n".to_string(), "#let  c = 1\n\n\n\n".to_string(), "  \n#let  d = 1".to_string(),
             ]
             .iter()
             .enumerate()
